@@ -214,7 +214,7 @@ class G:
         iterations are called later, after further calls of the same procedure; parameters shadow globals."""
         r = self.rng
         gi = self.vars_of(env, "int")
-        k = r.randrange(13)
+        k = r.randrange(15)
         f, g = self.fresh("sf"), self.fresh("sg")
         n = S(self.fresh("n")) if not gi or r.random() < 0.5 else S(r.choice(gi))      # a parameter that may shadow a global
         acc, x = S(self.fresh("acc")), S(self.fresh("x"))
@@ -294,6 +294,24 @@ class G:
             forms.append(Proc(f, [n.name], None, [], [[[S("lambda"), [], [S("define"), S(n.name), [S("+"), n, 50]], n]], [S("+"), n, 1]]))
             forms.append(Proc(g, [], gv, [], [[S("cons"), a3, S(gv)]]))
             forms += [Call(S(f), [a2]), Call(S(g), []), S(gv), Call(S(g), [1, 2]), S(gv)]
+        elif k == 13:
+            # an internal definition bound to a closure made ELSEWHERE, next to a closure of this frame that escapes (returned, or an internal procedure returned by name)
+            mk, qn, y = self.fresh("mk"), self.fresh("q"), S(self.fresh("y"))
+            forms.append(Proc(mk, [n.name], None, [], [[S("lambda"), [x], [S("+"), x, n]]]))
+            if r.random() < 0.5:
+                forms.append(Proc(f, [acc.name], None, [[S("define"), S(qn), Call(S(mk), [a2])]], [[S("lambda"), [y], [S("+"), [S(qn), y], acc]]]))
+            else:
+                forms.append(Proc(f, [acc.name], None, [[S("define"), S(qn), Call(S(mk), [a2])], [S("define"), [S("hh"), y], [S("+"), [S(qn), y], acc]]], [S("hh")]))
+            k1, k2 = self.fresh("k"), self.fresh("k")
+            forms += [[S("define"), S(k1), Call(S(f), [a1])], [S("define"), S(k2), Call(S(f), [a3])], [S(k1), self.tick(5)], [S(k2), 7], [S(k1), 1]]
+        elif k == 14:
+            # a procedure with internal definitions stores a closure of its frame into a vector it was given / into a global, and returns something else
+            slots, keep = self.fresh("slots"), self.fresh("keep")
+            forms.append([S("define"), S(slots), [S("vector"), 0, 0]])
+            forms.append([S("define"), S(keep), False])
+            forms.append(Proc(f, ["i", acc.name], None, [[S("define"), S("tot"), acc], [S("define"), [S("bump"), x], [S("+"), S("tot"), x]]],
+                              [[S("vector-set!"), S(slots), S("i"), [S("lambda"), [x], [S("bump"), [S("*"), x, 2]]]], [S("set!"), S(keep), S("bump")], S("i")]))
+            forms += [Call(S(f), [0, a2]), Call(S(f), [1, a3]), [[S("vector-ref"), S(slots), 0], 3], [[S("vector-ref"), S(slots), 1], self.tick(4)], [S(keep), 5]]
         elif k == 11:
             # a chain of closures of ONE lambda expression over different environments, each tail-calling the next directly
             nxt = S(self.fresh("next"))
